@@ -960,7 +960,7 @@ pub fn load(
         key: &str,
         is_binary: bool,
         build_dir: &Utf8Path,
-    ) -> Option<Module> {
+    ) -> Result<Option<Module>> {
         // this function determines the module or app defaults for a given YamlFile
 
         // determine inherited "defaults: module: ..."
@@ -973,15 +973,17 @@ pub fn load(
         // determine "defaults: module: ..." from yaml document
         let mut module_defaults = if let Some(defaults) = &data.defaults {
             if let Some(module_defaults) = defaults.get(key) {
-                let context = &module_defaults
-                    .context
-                    .as_ref()
-                    .map(|context| match context {
-                        StringOrVecString::List(_) => {
-                            panic!("module defaults with context _list_")
-                        }
-                        StringOrVecString::Single(context) => context,
-                    });
+                let context = &match module_defaults.context.as_ref() {
+                    Some(StringOrVecString::List(_)) => {
+                        return Err(anyhow!(
+                            "{:?}: defaults for \"{}\" cannot have a context list",
+                            data.filename.as_ref().unwrap(),
+                            key
+                        ))
+                    }
+                    Some(StringOrVecString::Single(context)) => Some(context),
+                    None => None,
+                };
 
                 Some(
                     convert_module(
@@ -993,7 +995,9 @@ pub fn load(
                         subdir_defaults,
                         build_dir,
                     )
-                    .unwrap(),
+                    .with_context(|| {
+                        format!("{:?}: defaults for \"{}\"", data.filename.as_ref().unwrap(), key)
+                    })?,
                 )
             } else {
                 None
@@ -1006,7 +1010,7 @@ pub fn load(
                 module_defaults = Some(subdir_defaults.clone());
             }
         }
-        module_defaults
+        Ok(module_defaults)
     }
 
     for data in &yaml_datas {
@@ -1016,8 +1020,8 @@ pub fn load(
             "module",
             false,
             build_dir,
-        );
-        let app_defaults = get_defaults(data, &subdir_app_defaults_map, "app", true, build_dir);
+        )?;
+        let app_defaults = get_defaults(data, &subdir_app_defaults_map, "app", true, build_dir)?;
 
         if data.subdirs.is_some() {
             if let Some(module_defaults) = &module_defaults {
